@@ -12,7 +12,7 @@ RULE = (
     "Hypothesis draws documents from the structural grammar of C02 plus 1-3 clipPath elements (1-3 children of any "
     "fillable shape kind incl. self-intersecting paths, clip-rule nonzero/evenodd set on the children via attribute or "
     "style, or on the clipPath element itself (inherited by children without their own), transform lists on clipPath or children, clipPath referencing an earlier clipPath) referenced by clip-path on "
-    "shapes, groups and use, stacked along ancestor chains; fill-rule of clipped shapes varied independently. Oracle: "
+    "shapes, groups and use, stacked along ancestor chains, clip-path=none (attribute or style) on descendants of clipped ancestors; fill-rule of clipped shapes varied independently. Oracle: "
     "differential render with vlib.refsvg.render (clip region = union of children under their clip-rule in the user "
     "space of the referencing element incl. its own transform, intersected with the clipPath's own clip) - ordered "
     "paint stack and composited colour at every mutually trusted point (epsilon band 0.4% around every fill and clip "
